@@ -66,13 +66,15 @@ theorem C08V2_frame_add_remove (ops : List Db.V2.Op) (hapi : ops.all apiOp = tru
 
 /-- Adding a track that is already present is a no-op: crate::add_track returns normally and nothing changes;
 at table level add_back returns the existing entity when throw_if_duplicate is off and throws (again without
-effect) when it is on. -/
-theorem C08V2_add_present_noop (d : Db) (c t : Int) (e : Row Int) (h : peGet d c t = some e) :
-    step d (.peAddBack c t false) = (d, .ok (some e.id)) ∧
-    step d (.peAddBack c t true) = (d, .throw .invalid_argument) ∧
-    (plExists d c = true → t ∈ d.tracks → step d (.addTrack c t) = (d, .ok (some e.id))) := by
+effect) when it is on ("present" = same list, same track id, same database uuid `u`; the crate API always uses
+the library's own uuid, tag 0). -/
+theorem C08V2_add_present_noop (d : Db) (c t u : Int) (e : Row Ent) (h : peFind d c t u = some e) :
+    step d (.peAddBack c t u false) = (d, .ok (some e.id)) ∧
+    step d (.peAddBack c t u true) = (d, .throw .invalid_argument) ∧
+    (u = 0 → plExists d c = true → t ∈ d.tracks → step d (.addTrack c t) = (d, .ok (some e.id))) := by
   refine ⟨by simp [step, peAddBack, h], by simp [step, peAddBack, h], ?_⟩
-  intro h1 h2
+  intro hu h1 h2
+  subst hu
   simp [step, peAddBack, h, h1, h2]
 
 /-- Removing a track that is not in the crate is a no-op. -/
